@@ -424,3 +424,254 @@ Proof.
     rewrite Hxor. rewrite Hfd. cbn [bind]. rewrite Hdata. cbn [bind].
     destruct (_ && _); [destruct (send_create_permission s0 peer) as [[s1 o1] r1]|]; eexists _, _; reflexivity.
 Qed.
+
+(** * RFC 5766 / draft 9: ChannelData *)
+Lemma peer_chan_in l p ch : peer_chan l p = Some ch -> In (ch, p) l.
+Proof.
+  induction l as [|[c0 a] l IH]; [discriminate|]. cbn [peer_chan].
+  destruct (same_addr a p) eqn:E.
+  - intros H; inversion H; subst. apply same_addr_eq in E. subst. left. reflexivity.
+  - intros H. right. apply IH. exact H.
+Qed.
+Lemma chan_scan_hit s from b ch peer rl d : rdw b 0 = Ok ch -> rdw b 2 = Ok rl -> rd_range b 4 (Z.min (blen b) rl) = Ok d ->
+  forall l, chan_peer (map (fun x => (b_chan x, b_peer x)) l) ch = Some peer ->
+  chan_scan s from b l = Ok (s, [], RxData {| h_data := d; h_from := peer; h_sock := true |}).
+Proof.
+  intros H0 H2 Hd. induction l as [|bd l IH]; [discriminate|]. cbn [map chan_peer chan_scan]. rewrite H0. cbn [bind].
+  destruct (b_chan bd =? ch) eqn:E.
+  - intros H; inversion H; subst. rewrite H2. cbn [bind]. rewrite Hd. reflexivity.
+  - exact IH.
+Qed.
+
+Lemma unwrap_rfc_channeldata s peer p ch :
+  is_rfc (c_compat (cf s)) = true -> chan_table_ok s -> peer_chan (r_chans (relay_of s)) peer = Some ch ->
+  handed_up (recv s (c_server (cf s)) (put16 ch ++ put16 (blen p) ++ p)) p peer.
+Proof.
+  intros Hrfc Htab Hpc.
+  apply peer_chan_in in Hpc. unfold relay_of in Hpc. cbn [r_chans] in Hpc.
+  apply in_map_iff in Hpc as (bd & Hbd & Hin). inversion Hbd; subst.
+  destruct (Htab Hrfc bd Hin) as (Hrange & Hlook).
+  set (b := put16 (b_chan bd) ++ put16 (blen p) ++ p).
+  pose proof (blen_nonneg p) as Hp0.
+  assert (Hlen : blen b = 4 + blen p) by (unfold b; rewrite !blen_app; change (blen (put16 (b_chan bd))) with 2; change (blen (put16 (blen p))) with 2; lia).
+  assert (H0 : rdw b 0 = Ok (b_chan bd)).
+  { unfold b, put16. cbn [app]. match goal with |- rdw (?x0 :: ?x1 :: ?r) 0 = _ => change (x0 :: x1 :: r) with ([] ++ x0 :: x1 :: r) end.
+    rewrite (rdw_at' [] _ _ _ 0) by reflexivity. rewrite put16_val. reflexivity. }
+  assert (H2 : rdw b 2 = Ok (blen p)).
+  { unfold b, put16. cbn [app]. match goal with |- rdw (?x0 :: ?x1 :: ?r) 2 = _ => change (x0 :: x1 :: r) with ([x0; x1] ++ r) end.
+    rewrite (rdw_at' _ _ _ _ 2) by reflexivity. rewrite put16_val. reflexivity. }
+  assert (Hd : rd_range b 4 (Z.min (blen b) (blen p)) = Ok p).
+  { rewrite Z.min_r by lia. unfold b. rewrite app_assoc. replace 4 with (blen (put16 (b_chan bd) ++ put16 (blen p))) by reflexivity.
+    rewrite <- (app_nil_r p) at 2. apply rd_range_at. }
+  assert (Hval : validate (cf s) (ids s) b = Ok (V_NOT_STUN, ids s)).
+  { unfold validate, validate_buffer_length. rewrite Hlen.
+    replace (4 + blen p <? 1) with false by (symmetry; apply Z.ltb_ge; lia).
+    assert (Hr0 : rd b 0 = Ok (b_chan bd / 256)).
+    { unfold b, put16. cbn [app]. unfold rd. rewrite !blen_cons. pose proof (blen_nonneg (p)).
+      match goal with |- context [0 <? ?x] => replace (0 <? x) with true by (symmetry; apply Z.ltb_lt; rewrite ?blen_app in *; lia) end. reflexivity. }
+    rewrite Hr0. cbn [bind].
+    replace (0 <? b_chan bd / 256 / 64) with true; [reflexivity|].
+    symmetry. apply Z.ltb_lt. rewrite Z.div_div by lia. assert (1 <= b_chan bd / (256 * 64)) by (apply Z.div_le_lower_bound; lia). lia. }
+  unfold recv. rewrite addr_eqb_refl. cbn [negb]. rewrite Hval. cbn [bind].
+  unfold recv_tail. cbn [cf set_ids]. rewrite Hrfc. cbn [channels set_ids].
+  rewrite (chan_scan_hit _ _ b (b_chan bd) (b_peer bd) (blen p) p H0 H2 Hd (channels s) Hlook).
+  eexists _, _. reflexivity.
+Qed.
+
+(** * Google / MSN / OC2007: Data Indication 0x0115 *)
+Lemma old_not_rfc5766 c : is_rfc c = false -> compat_eqb c RFC5766 = false.
+Proof. destruct c; simpl; intros; try discriminate; reflexivity. Qed.
+Lemma old_not_5389 c : is_rfc c = false -> rfc5389 c = true -> False.
+Proof. unfold rfc5389. intros -> H. discriminate H. Qed.
+Lemma unwrap_old_indication s id16 peer p :
+  is_rfc (c_compat (cf s)) = false -> length id16 = 16%nat -> wf_addr peer -> blen p <= 65000 ->
+  handed_up (recv s (c_server (cf s))
+               (put_msg (negb (no_aligned (c_compat (cf s)))) 277 id16 [(15, turn_magic); (18, put_address None peer); (19, p)])) p peer.
+Proof.
+  intros Hrfc Hid Hpeer Hp.
+  set (c := c_compat (cf s)) in *.
+  set (pa := put_address None peer).
+  set (ra := [(15, turn_magic); (18, pa); (19, p)]).
+  pose proof (blen_put_address None peer Hpeer) as Hpal. fold pa in Hpal.
+  pose proof (blen_nonneg p) as Hp0. pose proof (padding_range (blen p)) as Hpp. pose proof (blen_nonneg pa) as Hpa0.
+  assert (Hwm : whole (no_aligned c) turn_magic = 4) by (unfold whole; destruct (no_aligned c); reflexivity).
+  assert (Hwpa : whole (no_aligned c) pa = blen pa) by (unfold whole, align; rewrite Hpal; destruct (no_aligned c), (a6 peer); reflexivity).
+  assert (Hwp : blen p <= whole (no_aligned c) p <= blen p + 3) by (unfold whole, align; destruct (no_aligned c); lia).
+  assert (Hbody : blen (body (no_aligned c) ra) = 8 + (4 + blen pa) + (4 + whole (no_aligned c) p)).
+  { unfold ra. rewrite !blen_body_cons. change (blen (body (no_aligned c) [])) with 0. cbn [snd]. rewrite Hwpa, Hwm. lia. }
+  assert (Hsmall : blen (body (no_aligned c) ra) + 20 < 65536) by (rewrite Hbody, Hpal; destruct (a6 peer); lia).
+  rewrite (enc_put_msg c 277 id16 ra).
+  set (b := (put16 277 ++ put16 (blen (body (no_aligned c) ra)) ++ id16) ++ body (no_aligned c) ra).
+  assert (Hval : forall ids0, validate (cf s) ids0 b = Ok (V_SUCCESS, ids0)).
+  { intros ids0. apply (enc_validate c 277 id16 ra Hid Hsmall); try reflexivity; try lia.
+    - intros H. exfalso. exact (old_not_5389 c Hrfc H).
+    - unfold ra. repeat constructor; cbn [fst snd]; try lia; try (change (blen turn_magic) with 4; lia).
+    - unfold ra. repeat constructor.
+    - intros Hna. rewrite Hbody, Hpal. unfold whole. rewrite Hna. apply padding_div4.
+      pose proof (align_mod4 (blen p)) as E.
+      destruct (a6 peer); rewrite Z.add_mod by lia; rewrite Z.add_mod with (a := 8 + _) by lia;
+        rewrite Z.add_mod with (a := 4) (b := align (blen p)) by lia; rewrite E; reflexivity. }
+  unfold recv. rewrite addr_eqb_refl. cbn [negb]. rewrite Hval. cbn [bind].
+  set (s0 := set_ids s (ids s)).
+  assert (Hc0 : c_compat (cf s0) = c) by reflexivity.
+  assert (Hswap : forall ty, ty <> A_REALM -> ty <> A_NONCE -> swap_realm_nonce c ty = ty) by (intros; apply swap_id; assumption).
+  assert (Hfm : find_attr c b A_MAGIC_COOKIE = Ok (Some (24, 4))).
+  { unfold b. rewrite (enc_find c 277 id16 ra Hid Hsmall). rewrite Hswap by discriminate. reflexivity. }
+  assert (Hfa : find_attr c b A_PEER = Ok (Some (20 + blen (body (no_aligned c) [(15, turn_magic)]) + 4, blen pa))).
+  { unfold b. rewrite (enc_find c 277 id16 ra Hid Hsmall). rewrite Hswap by discriminate. unfold ra. cbn [rfind fst snd].
+    change (15 =? A_PEER) with false. change ((15 =? A_MI) && negb (A_PEER =? A_FPR)) with false. change (15 =? A_FPR) with false.
+    change (18 =? A_PEER) with true. cbn iota. rewrite blen_body_cons. change (blen (body (no_aligned c) [])) with 0. cbn [snd].
+    f_equal. f_equal. f_equal. lia. }
+  assert (Hfd : find_attr c b A_DATA = Ok (Some (20 + blen (body (no_aligned c) [(15, turn_magic); (18, pa)]) + 4, blen p))).
+  { unfold b. rewrite (enc_find c 277 id16 ra Hid Hsmall). rewrite Hswap by discriminate. unfold ra. cbn [rfind fst snd].
+    change (15 =? A_DATA) with false. change ((15 =? A_MI) && negb (A_DATA =? A_FPR)) with false. change (15 =? A_FPR) with false.
+    change (18 =? A_DATA) with false. change ((18 =? A_MI) && negb (A_DATA =? A_FPR)) with false. change (18 =? A_FPR) with false.
+    change (19 =? A_DATA) with true. cbn iota. rewrite !blen_body_cons. change (blen (body (no_aligned c) [])) with 0. cbn [snd].
+    f_equal. f_equal. f_equal. lia. }
+  pose proof (enc_value c 277 id16 ra Hid [] (15, turn_magic) [(18, pa); (19, p)] eq_refl) as Hvm. cbn [snd] in Hvm.
+  change (blen (body (no_aligned c) [])) with 0 in Hvm. change (20 + 0 + 4) with 24 in Hvm. change (blen turn_magic) with 4 in Hvm. fold b in Hvm.
+  pose proof (enc_value c 277 id16 ra Hid [(15, turn_magic)] (18, pa) [(19, p)] eq_refl) as Hva. cbn [snd] in Hva. fold b in Hva.
+  pose proof (enc_value c 277 id16 ra Hid [(15, turn_magic); (18, pa)] (19, p) [] eq_refl) as Hvd. cbn [snd] in Hvd. fold b in Hvd.
+  set (oa := 20 + blen (body (no_aligned c) [(15, turn_magic)]) + 4) in *.
+  set (od := 20 + blen (body (no_aligned c) [(15, turn_magic); (18, pa)]) + 4) in *.
+  destruct (put_address_parts None peer Hpeer) as (Hfam & Hport & Hip). cbv zeta in Hfam, Hport, Hip. fold pa in Hfam, Hport, Hip.
+  unfold recv_valid. rewrite Hc0, Hrfc.
+  unfold find32. rewrite Hfm. cbn [bind]. rewrite Hvm. cbn [bind].
+  change (fold_left (fun acc x : Z => acc * 256 + x) turn_magic 0) with 1925598150. cbn [negb].
+  unfold b. rewrite (enc_rdw0 c 277 id16 ra), (enc_id c 277 id16 ra Hid). cbn [bind]. fold b.
+  change (method_of 277 =? M_SEND) with false. change (method_of 277 =? M_SET_ACTIVE) with false.
+  change (method_of 277 =? M_CHANNELBIND) with false. change (method_of 277 =? M_CREATEPERM) with false.
+  change ((class_of 277 =? C_INDICATION) && (method_of 277 =? M_IND_DATA)) with true. cbn iota.
+  unfold recv_data_ind. rewrite Hc0, Hrfc.
+  unfold find_addr. rewrite Hfa. cbn [bind].
+  replace (blen pa <? 4) with false by (symmetry; apply Z.ltb_ge; rewrite Hpal; destruct (a6 peer); lia).
+  rewrite (rd_sub b oa (blen pa) pa 1 Hva) by (rewrite Hpal; destruct (a6 peer); lia). cbn [bind].
+  change (Z.to_nat 1) with 1%nat. rewrite Hfam.
+  assert (Hdata : rd_range b od (Z.min (blen b) (blen p)) = Ok p).
+  { rewrite Z.min_r; [exact Hvd|]. unfold b. rewrite (enc_len c 277 id16 ra Hid), Hbody. lia. }
+  assert (Hrec : {| a6 := a6 peer; aip := aip peer; aport := aport peer |} = peer) by (destruct peer; reflexivity).
+  assert (Hcompat : compat_eqb c RFC5766 = false) by (apply old_not_rfc5766; exact Hrfc).
+  destruct (a6 peer) eqn:E6.
+  - change (2 =? 1) with false. change (2 =? 2) with true. cbn iota.
+    replace (blen pa =? 20) with true by (symmetry; apply Z.eqb_eq; exact Hpal).
+    rewrite (rd_range_sub b oa (blen pa) pa 2 2 Hva) by (rewrite ?Hpal; lia).
+    rewrite (rd_range_sub b oa (blen pa) pa 4 16 Hva) by (rewrite ?Hpal; lia). cbn [bind].
+    change (Z.to_nat 2) with 2%nat. change (Z.to_nat 4) with 4%nat. change (Z.to_nat 16) with 16%nat.
+    rewrite Hport, Hip, Hrec. rewrite Hfd. cbn [bind]. rewrite Hdata. cbn [bind]. rewrite Hcompat. cbn [andb].
+    eexists _, _; reflexivity.
+  - change (1 =? 1) with true. cbn iota.
+    replace (blen pa =? 8) with true by (symmetry; apply Z.eqb_eq; exact Hpal).
+    rewrite (rd_range_sub b oa (blen pa) pa 2 2 Hva) by (rewrite ?Hpal; lia).
+    rewrite (rd_range_sub b oa (blen pa) pa 4 4 Hva) by (rewrite ?Hpal; lia). cbn [bind].
+    change (Z.to_nat 2) with 2%nat. change (Z.to_nat 4) with 4%nat.
+    rewrite Hport, Hip, Hrec. rewrite Hfd. cbn [bind]. rewrite Hdata. cbn [bind]. rewrite Hcompat. cbn [andb].
+    eexists _, _; reflexivity.
+Qed.
+
+(** * Google / MSN / OC2007: raw data from the active destination *)
+Lemma unwrap_old_raw s peer p bd :
+  is_rfc (c_compat (cf s)) = false -> channels s = [bd] -> b_peer bd = peer -> bytes_ok p ->
+  (forall ids', validate (cf s) (ids s) p <> Ok (V_SUCCESS, ids')) ->
+  handed_up (recv s (c_server (cf s)) p) p peer.
+Proof.
+  intros Hrfc Hch Hpeer Hb Hnv.
+  unfold recv. rewrite addr_eqb_refl. cbn [negb].
+  destruct (validate_spec (cf s) (ids s) p Hb) as (st & ids' & Hval & _). rewrite Hval. cbn [bind].
+  assert (Htail : recv_tail (set_ids s ids') (c_server (cf s)) p =
+                  Ok (set_ids s ids', [], RxData {| h_data := p; h_from := peer; h_sock := true |})).
+  { unfold recv_tail. cbn [cf set_ids channels]. rewrite Hrfc, Hch. unfold raw_up.
+    assert (Hr : rd_range p 0 (blen p) = Ok p).
+    { unfold rd_range. destruct (blen p <=? 0) eqn:E.
+      - apply Z.leb_le in E. destruct p; [reflexivity | rewrite blen_cons in E; pose proof (blen_nonneg p); lia].
+      - replace ((0 <=? 0) && (0 + blen p <=? blen p)) with true by (symmetry; apply andb_true_iff; split; apply Z.leb_le; lia).
+        cbn [skipn Z.to_nat]. rewrite blen_length, firstn_all. reflexivity. }
+    rewrite Hr. cbn [bind is_some]. rewrite Hpeer. reflexivity. }
+  destruct st; try (rewrite Htail; eexists _, _; reflexivity).
+  exfalso. apply (Hnv ids'). exact Hval.
+Qed.
+
+(** * C16_unwrap *)
+Definition unwrap_pre (s : state) (id16 : bytes) (peer : addr) (p : bytes) : Prop :=
+  let c := c_compat (cf s) in
+  wf_addr peer /\ blen p <= 65000 /\ length id16 = 16%nat /\
+  (is_rfc c = true -> firstn 4 id16 = cookie_bytes /\ chan_table_ok s) /\
+  (is_rfc c = false -> old_single s /\
+     (forall bd, channels s = [bd] -> b_peer bd = peer ->
+        bytes_ok p /\ forall ids', validate (cf s) (ids s) p <> Ok (V_SUCCESS, ids'))).
+
+Theorem unwrap_transparent s id16 peer p : unwrap_pre s id16 peer p ->
+  handed_up (recv s (c_server (cf s)) (relay_encode (relay_of s) id16 peer p)) p peer.
+Proof.
+  intros (Hpeer & Hp & Hid & Hr & Ho).
+  unfold relay_encode. rewrite r_rfc_of.
+  destruct (is_rfc (c_compat (cf s))) eqn:Hrfc.
+  - destruct (Hr eq_refl) as (Hck & Htab).
+    destruct (peer_chan (r_chans (relay_of s)) peer) as [ch|] eqn:Hpc.
+    + apply (unwrap_rfc_channeldata s peer p ch Hrfc Htab Hpc).
+    + apply (unwrap_rfc_indication s id16 peer p Hrfc Hid Hck Hpeer Hp).
+  - destruct (Ho eq_refl) as (Hsingle & Hraw). rewrite r_padded_of.
+    specialize (Hsingle Hrfc). unfold relay_of. cbn [r_active].
+    destruct (channels s) as [|bd [|bd2 l]] eqn:Hch; [ | | simpl in Hsingle; lia].
+    + apply (unwrap_old_indication s id16 peer p Hrfc Hid Hpeer Hp).
+    + destruct (same_addr (b_peer bd) peer) eqn:Esame.
+      * apply same_addr_eq in Esame. destruct (Hraw bd eq_refl Esame) as (Hb & Hnv).
+        apply (unwrap_old_raw s peer p bd Hrfc Hch Esame Hb Hnv).
+      * apply (unwrap_old_indication s id16 peer p Hrfc Hid Hpeer Hp).
+Qed.
+
+(** non-vacuity *)
+Definition ex_id_rfc : bytes := cookie_bytes ++ [1; 2; 3; 4; 5; 6; 7; 8; 9; 10; 11; 12].
+Definition ex_id_old : bytes := [9; 9; 9; 9; 1; 2; 3; 4; 5; 6; 7; 8; 9; 10; 11; 12].
+Lemma unwrap_pre_rfc_init c peer p : is_rfc c = true -> wf_addr peer -> blen p <= 65000 ->
+  unwrap_pre (init_state (ex_cfg c)) ex_id_rfc peer p.
+Proof.
+  intros Hc Hw Hp. unfold unwrap_pre. cbn [init_state cf ex_cfg c_compat channels ids].
+  split; [exact Hw|]. split; [exact Hp|]. split; [reflexivity|]. split.
+  - intros _. split; [reflexivity | intros _ b []].
+  - intros H. rewrite Hc in H. discriminate H.
+Qed.
+Lemma unwrap_pre_rfc_bound c peer p : is_rfc c = true -> wf_addr peer -> blen p <= 65000 ->
+  unwrap_pre (ex_bound c peer) ex_id_rfc peer p.
+Proof.
+  intros Hc Hw Hp. unfold unwrap_pre, ex_bound. cbn [init_state cf ex_cfg c_compat channels ids set_channels].
+  split; [exact Hw|]. split; [exact Hp|]. split; [reflexivity|]. split.
+  - intros _. split; [reflexivity|]. intros _ b [<-|[]]. cbn [b_chan b_peer]. rewrite Hc. split; [lia|].
+    unfold relay_of. cbn [r_chans channels set_channels map b_chan b_peer chan_peer]. rewrite Z.eqb_refl. reflexivity.
+  - intros H. rewrite Hc in H. discriminate H.
+Qed.
+Lemma unwrap_pre_old_init c peer p : is_rfc c = false -> wf_addr peer -> blen p <= 65000 ->
+  unwrap_pre (init_state (ex_cfg c)) ex_id_old peer p.
+Proof.
+  intros Hc Hw Hp. unfold unwrap_pre. cbn [init_state cf ex_cfg c_compat channels ids].
+  split; [exact Hw|]. split; [exact Hp|]. split; [reflexivity|]. split.
+  - intros H. rewrite Hc in H. discriminate H.
+  - intros _. split; [intros _; simpl; lia | intros bd H; discriminate H].
+Qed.
+Lemma unwrap_pre_examples :
+  unwrap_pre (init_state (ex_cfg RFC5766)) ex_id_rfc ex_peer6 [1; 2; 3] /\
+  unwrap_pre (ex_bound DRAFT9 ex_peer4) ex_id_rfc ex_peer4 [0; 1; 0; 0; 33] /\
+  unwrap_pre (init_state (ex_cfg GOOGLE)) ex_id_old ex_peer4 [] /\
+  unwrap_pre (init_state (ex_cfg OC2007)) ex_id_old ex_peer6 [1; 2; 3; 4; 5] /\
+  unwrap_pre (ex_bound MSN ex_peer4) ex_id_old ex_peer4 [128; 1; 2].
+Proof.
+  assert (Hw4 : wf_addr ex_peer4) by (split; reflexivity). assert (Hw6 : wf_addr ex_peer6) by (split; reflexivity).
+  split; [apply unwrap_pre_rfc_init; [reflexivity | assumption | vm_compute; intro Hx; discriminate Hx]|].
+  split; [apply unwrap_pre_rfc_bound; [reflexivity | assumption | vm_compute; intro Hx; discriminate Hx]|].
+  split; [apply unwrap_pre_old_init; [reflexivity | assumption | vm_compute; intro Hx; discriminate Hx]|].
+  split; [apply unwrap_pre_old_init; [reflexivity | assumption | vm_compute; intro Hx; discriminate Hx]|].
+  unfold unwrap_pre, ex_bound. cbn [init_state cf ex_cfg c_compat channels ids set_channels].
+  split; [exact Hw4|]. split; [vm_compute; intro Hx; discriminate Hx|]. split; [reflexivity|]. split.
+  - intros H. discriminate H.
+  - intros _. split; [intros _; simpl; lia|]. intros bd Hx _. split; [repeat constructor; lia|].
+    intros ids'. vm_compute. intro Hy; discriminate Hy.
+Qed.
+
+Lemma unwrap_transparent_stmt : forall s id16 peer p,
+  wf_addr peer -> blen p <= 65000 -> length id16 = 16%nat ->
+  (is_rfc (c_compat (cf s)) = true -> firstn 4 id16 = cookie_bytes /\ chan_table_ok s) ->
+  (is_rfc (c_compat (cf s)) = false -> old_single s /\
+     (forall bd, channels s = [bd] -> b_peer bd = peer ->
+        bytes_ok p /\ forall ids', validate (cf s) (ids s) p <> Ok (V_SUCCESS, ids'))) ->
+  exists s' o, recv s (c_server (cf s)) (relay_encode (relay_of s) id16 peer p)
+               = Ok (s', o, RxData {| h_data := p; h_from := peer; h_sock := true |}).
+Proof. intros s id16 peer p H1 H2 H3 H4 H5. apply unwrap_transparent. exact (conj H1 (conj H2 (conj H3 (conj H4 H5)))). Qed.
